@@ -19,7 +19,7 @@ def main():
     env.pop('LOMOND_VERIF', None)
     try:
         subprocess.run(
-            ['/venv/bin/python', '-m', 'pytest', '-ra', '-q', '-p', 'no:cacheprovider',
+            ['flock', '/tmp/lomond-suite.lock', '/venv/bin/python', '-m', 'pytest', '-ra', '-q', '-p', 'no:cacheprovider',
              '--timeout=900', '--continue-on-collection-errors', '--junitxml=' + path],
             cwd=root, env=env, stdout=subprocess.DEVNULL, stderr=subprocess.DEVNULL)
         passed = set()
